@@ -1,0 +1,29 @@
+//go:build verif
+
+package pause
+
+import (
+	"io"
+
+	"k8s.io/cli-runtime/pkg/genericclioptions"
+	"sigs.k8s.io/controller-runtime/pkg/client"
+)
+
+// VerifRunRollingUpdatePause runs the body of `kubectl-eds pause` (pause=true) or
+// `kubectl-eds unpause` against an injected client (verification hook, build tag verif).
+func VerifRunRollingUpdatePause(c client.Client, ns, name string, pause bool, out io.Writer) error {
+	want := unpaused
+	if pause {
+		want = paused
+	}
+	o := newPauseOptions(genericclioptions.IOStreams{Out: out, ErrOut: out}, want)
+	o.client = c
+	o.args = []string{name}
+	o.userNamespace = ns
+	o.userExtendedDaemonSetName = name
+	if err := o.validate(); err != nil {
+		return err
+	}
+
+	return o.run()
+}
